@@ -3,20 +3,10 @@
 #![allow(dead_code, unused_imports, non_camel_case_types, non_snake_case, unused_macros, clippy::all)]
 
 mod cert {
-    include!("/repo/varlink-certification/src/main.rs");
+    // /repo/varlink-certification/src/main.rs with its lock imports redirected (build.rs)
+    include!(concat!(::core::env!("OUT_DIR"), "/cert_main.rs"));
 
-    /// the service exactly as run_server() builds it
-    pub fn new_service() -> varlink::VarlinkService {
-        let certinterface = CertInterface {
-            client_ids: Arc::new(RwLock::new(ClientIds {
-                lifetimes: VecDeque::new(),
-                contexts: StringHashMap::new(),
-                max_lifetime: 60 * 60 * 12,
-            })),
-        };
-        let myinterface = new(Box::new(certinterface));
-        VarlinkService::new("org.varlink", "Varlink Certification Suite", "0.1", "http://varlink.org", vec![Box::new(myinterface)])
-    }
+    include!(concat!(::core::env!("OUT_DIR"), "/new_service.rs"));
 }
 
 use serde_json::{json, Map, Value};
@@ -439,9 +429,357 @@ fn is_success_of(step: usize, c: &Class) -> bool {
     }
 }
 
+
+// ------------------------------------------------------------------ c19t: threads at lock granularity
+
+use vh::vsched::{explore, install_hooks, run_one, unscheduled, EnvAct, Exec, ExploreCfg, Fail, Scenario, Sched, St, World};
+
+/// one call: canonical request of `step` for client slot `client` (slots 0,1 are set up in advance; a
+/// `Start` fills the thread's own fresh slot 2+t)
+#[derive(Clone, Debug, PartialEq)]
+struct TOp {
+    client: usize,
+    step: usize,
+}
+
+#[derive(Clone, Debug)]
+struct TPlan {
+    base: usize,
+    threads: Vec<Vec<TOp>>,
+}
+
+struct TObs {
+    results: Vec<Vec<Class>>,
+    panics: Vec<String>,
+    /// final state per client slot, probed by the last thread
+    finals: Option<Vec<usize>>,
+}
+
+struct WorldC {
+    plan: TPlan,
+    obs: std::sync::Arc<std::sync::Mutex<TObs>>,
+}
+
+/// which step does the live service accept next for `id`? (destructive probe, used once at the end;
+/// 13 = none)
+fn probe_final(svc: &varlink::VarlinkService, tm: &[Value], id: &str) -> usize {
+    if classify(&send(svc, &subst(&tm[12], id)).0) == Class::Success(1) {
+        return 12;
+    }
+    for k in 1..=10 {
+        if classify(&send(svc, &subst(&tm[k], id)).0) == expected_success(k) {
+            return k;
+        }
+    }
+    let _ = send(svc, &subst(&tm[11], id));
+    if classify(&send(svc, &subst(&tm[12], id)).0) == Class::Success(1) {
+        return 11;
+    }
+    13
+}
+
+/// sequential reference: a client at step s accepts exactly step s
+fn ref_run(order: &[(usize, usize)], plan: &TPlan, nslots: usize) -> (Vec<Vec<bool>>, Vec<usize>) {
+    let mut state = vec![13usize; nslots];
+    state[0] = plan.base;
+    state[1] = plan.base;
+    let mut res: Vec<Vec<bool>> = plan.threads.iter().map(|_| vec![]).collect();
+    for (t, k) in order {
+        let op = &plan.threads[*t][*k];
+        let ok = if op.step == 0 {
+            state[op.client] = 1;
+            true
+        } else if state[op.client] == op.step {
+            // End leaves the client at End (the service accepts it again; the id only expires with its lifetime)
+            state[op.client] = if op.step == 12 { 12 } else { op.step + 1 };
+            true
+        } else {
+            false
+        };
+        res[*t].push(ok);
+    }
+    (res, state)
+}
+
+fn orders(plan: &TPlan) -> Vec<Vec<(usize, usize)>> {
+    fn rec(pos: &mut Vec<usize>, plan: &TPlan, cur: &mut Vec<(usize, usize)>, out: &mut Vec<Vec<(usize, usize)>>) {
+        let mut any = false;
+        for t in 0..plan.threads.len() {
+            if pos[t] < plan.threads[t].len() {
+                any = true;
+                cur.push((t, pos[t]));
+                pos[t] += 1;
+                rec(pos, plan, cur, out);
+                pos[t] -= 1;
+                cur.pop();
+            }
+        }
+        if !any {
+            out.push(cur.clone());
+        }
+    }
+    let mut out = vec![];
+    rec(&mut vec![0; plan.threads.len()], plan, &mut vec![], &mut out);
+    out
+}
+
+impl World for WorldC {
+    fn env_enabled(&self, _st: &St) -> Vec<EnvAct> {
+        vec![]
+    }
+    fn do_env(&mut self, _st: &mut St, _a: &EnvAct) -> Option<usize> {
+        None
+    }
+    fn on_watchdog(&self, desc: &str) -> Option<(String, String)> {
+        Some(("C19/threads/blocked".into(), format!("a client's call never returned: {}", desc)))
+    }
+    fn final_check(&mut self, st: &St, horizon: bool) -> Option<(String, String)> {
+        if horizon {
+            return Some(("C19/threads/horizon".into(), "execution did not end".into()));
+        }
+        let o = self.obs.lock().unwrap();
+        if let Some(p) = o.panics.first() {
+            return Some(("C19/threads/panic".into(), p.clone()));
+        }
+        let finals = match &o.finals {
+            Some(f) => f.clone(),
+            None => {
+                let desc: Vec<String> = st.threads.iter().map(|t| format!("{}:{:?}{}", t.name, t.pending.as_ref().map(|o| o.label()), if t.exited { " exited" } else { "" })).collect();
+                return Some(("C19/threads/deadlock".into(), format!("nothing enabled before every call returned: {:?}; results so far {:?}", desc, o.results)));
+            }
+        };
+        // linearizability against the sequential reference, brute force over the few orders
+        let nslots = finals.len();
+        let mut explain = vec![];
+        for ord in orders(&self.plan) {
+            let (res, state) = ref_run(&ord, &self.plan, nslots);
+            let mut ok = state == finals;
+            for (t, ops) in self.plan.threads.iter().enumerate() {
+                for (k, op) in ops.iter().enumerate() {
+                    let got = &o.results[t][k];
+                    if op.step == 11 {
+                        // oneway: success and rejection are both silent; judged through the final state
+                        ok &= *got == Class::Nothing;
+                        continue;
+                    }
+                    let success = *got == expected_success(op.step);
+                    let rejected = matches!(got, Class::Error(_));
+                    ok &= if res[t][k] { success } else { rejected };
+                }
+            }
+            if ok {
+                return None;
+            }
+            explain.push(format!("{:?} -> {:?} final {:?}", ord, res, state));
+        }
+        let deviating_success = self.plan.threads.iter().enumerate().any(|(t, ops)| ops.iter().enumerate().filter(|(k, op)| op.step != 11 && o.results[t][*k] == expected_success(op.step)).count() > 0);
+        let sig = if deviating_success && self.plan.threads.iter().flatten().filter(|op| op.step != 0).count() > 0 { "C19/threads/not-linearizable" } else { "C19/threads/not-linearizable" };
+        Some((sig.into(), format!("base step {} plan {:?}: observed {:?} final states {:?}; no sequential order of the calls explains this (orders tried: {})", STEPS[self.plan.base], self.plan.threads, o.results, finals, explain.join(" | "))))
+    }
+    fn abstract_state(&self, st: &St) -> String {
+        let th: Vec<String> = st.threads.iter().map(|t| format!("{}{}", t.pending.as_ref().map(|o| o.label()).unwrap_or_default(), t.exited)).collect();
+        format!("{:?}{:?}{:?}", th, st.locks, self.obs.lock().unwrap().results)
+    }
+    fn outcome(&self, _st: &St) -> String {
+        let o = self.obs.lock().unwrap();
+        format!("{:?}{:?}", o.results, o.finals)
+    }
+}
+
+fn build_c(plan: TPlan, tm: std::sync::Arc<Vec<Value>>) -> impl Fn(&Sched) -> Scenario {
+    move |s: &Sched| {
+        let nthreads = plan.threads.len();
+        let nslots = 2 + nthreads;
+        // set-up on the controller, no scheduling points: two clients brought to the base step
+        let (svc, ids) = unscheduled(|| {
+            let svc = cert::new_service();
+            let mut ids = vec![String::from("no-id-yet"); nslots];
+            for c in 0..2 {
+                let (r, _, _) = send(&svc, &tm[0]);
+                ids[c] = r.get(0).and_then(|x| x["parameters"]["client_id"].as_str()).unwrap_or("").to_string();
+                for k in 1..plan.base {
+                    let _ = send(&svc, &subst(&tm[k], &ids[c]));
+                }
+            }
+            (std::sync::Arc::new(svc), ids)
+        });
+        let ids = std::sync::Arc::new(std::sync::Mutex::new(ids));
+        let obs = std::sync::Arc::new(std::sync::Mutex::new(TObs { results: vec![vec![]; nthreads], panics: vec![], finals: None }));
+        let done = std::sync::Arc::new(std::sync::Mutex::new(0usize));
+        let mut roots = vec![];
+        for (t, ops) in plan.threads.iter().enumerate() {
+            let (svc, ids, obs, done, tm, ops) = (svc.clone(), ids.clone(), obs.clone(), done.clone(), tm.clone(), ops.clone());
+            roots.push(s.spawn(&format!("c{}", t), true, move || {
+                for op in &ops {
+                    let id = ids.lock().unwrap()[op.client].clone();
+                    let (replies, _, p) = send(&svc, &subst(&tm[op.step], &id));
+                    let c = classify(&replies);
+                    if op.step == 0 {
+                        if let Some(id) = replies.get(0).and_then(|x| x["parameters"]["client_id"].as_str()) {
+                            ids.lock().unwrap()[op.client] = id.to_string();
+                        }
+                    }
+                    let mut o = obs.lock().unwrap();
+                    if let Some(p) = p {
+                        o.panics.push(format!("{} for client {} panicked: {}", STEPS[op.step], op.client, p));
+                    }
+                    o.results[t].push(c);
+                }
+                let last = {
+                    let mut d = done.lock().unwrap();
+                    *d += 1;
+                    *d == nthreads
+                };
+                if last {
+                    let ids = ids.lock().unwrap().clone();
+                    let finals: Vec<usize> = ids.iter().map(|id| if id == "no-id-yet" { 13 } else { probe_final(&svc, &tm, id) }).collect();
+                    obs.lock().unwrap().finals = Some(finals);
+                }
+            }));
+        }
+        Scenario { world: Box::new(WorldC { plan: plan.clone(), obs }), roots }
+    }
+}
+
+fn c19t_plans(thorough: bool) -> Vec<TPlan> {
+    let op = |client: usize, step: usize| TOp { client, step };
+    let mut v = vec![];
+    for base in 1..=12usize {
+        let next = base + 1;
+        // the same step of the same client twice: exactly one may succeed
+        v.push(TPlan { base, threads: vec![vec![op(0, base)], vec![op(0, base)]] });
+        // two clients at the same step: both succeed
+        v.push(TPlan { base, threads: vec![vec![op(0, base)], vec![op(1, base)]] });
+        if next <= 12 {
+            // a step racing with its successor
+            v.push(TPlan { base, threads: vec![vec![op(0, base)], vec![op(0, next)]] });
+            v.push(TPlan { base, threads: vec![vec![op(0, base), op(0, next)], vec![op(0, base)]] });
+            v.push(TPlan { base, threads: vec![vec![op(0, base), op(0, next)], vec![op(0, next)]] });
+            v.push(TPlan { base, threads: vec![vec![op(0, base), op(0, next)], vec![op(1, base), op(1, next)]] });
+        }
+        // a replayed earlier step racing with the current one
+        if base >= 2 {
+            v.push(TPlan { base, threads: vec![vec![op(0, base)], vec![op(0, base - 1)]] });
+        }
+        // End racing with any step of the same client
+        if base != 12 {
+            v.push(TPlan { base, threads: vec![vec![op(0, base)], vec![op(0, 12)]] });
+        }
+        if thorough {
+            v.push(TPlan { base, threads: vec![vec![op(0, base)], vec![op(0, base)], vec![op(0, base)]] });
+            v.push(TPlan { base, threads: vec![vec![op(0, base)], vec![op(0, base)], vec![op(1, base)]] });
+            if next <= 12 {
+                v.push(TPlan { base, threads: vec![vec![op(0, base)], vec![op(0, next)], vec![op(1, base), op(1, next)]] });
+                v.push(TPlan { base, threads: vec![vec![op(0, base), op(0, next)], vec![op(0, base), op(0, next)]] });
+            }
+        }
+    }
+    // new clients arriving concurrently (each thread starts its own client: slot 2+t), also next to a running one
+    v.push(TPlan { base: 1, threads: vec![vec![op(2, 0), op(2, 1)], vec![op(3, 0), op(3, 1)]] });
+    v.push(TPlan { base: 3, threads: vec![vec![op(2, 0), op(2, 1)], vec![op(0, 3), op(0, 4)]] });
+    if thorough {
+        v.push(TPlan { base: 5, threads: vec![vec![op(2, 0), op(2, 1)], vec![op(3, 0), op(3, 1)], vec![op(0, 5)]] });
+    }
+    v
+}
+
+fn fail_exit(f: Fail) -> ! {
+    eprintln!("MACHINERY: {:?}", f);
+    std::process::exit(2)
+}
+
+fn c19t(args: &Args) -> ! {
+    let mut rep = Report::new("C19", "threads at lock granularity under the controlled scheduler: the service's source is compiled with its std::sync lock imports redirected to scheduled locks, so every acquisition of the client table's lock is a scheduling point that is enabled only when it would not block; 2 threads (thorough: also 3) x 1-2 canonical calls each against one real service, for every base step Test01..End: the same step of one client id twice/thrice, a step racing with its successor / its predecessor / End, two clients side by side, new clients starting concurrently; complete DFS over all interleavings of the acquisitions; oracle per interleaving: replies and the clients' final steps (probed on the live service) equal those of some sequential order of the calls in the reference model 'a client at step s accepts exactly step s' (brute force over all orders), no panic, no deadlock; non-trivial = distinct complete interleavings");
+    install_hooks();
+    let templates = match canonical_templates() {
+        Ok(t) => std::sync::Arc::new(t),
+        Err(e) => {
+            rep.eval(Some("canonical"));
+            rep.violation("C19/canonical-sequence-fails", &e, json!({"part": "canonical"}));
+            rep.finish(args);
+        }
+    };
+    let plans = c19t_plans(true);
+    if let Some(case) = args.replay_case() {
+        let pi = case["plan"].as_u64().unwrap() as usize;
+        let choices: Vec<usize> = case["choices"].as_array().unwrap().iter().map(|c| c.as_u64().unwrap() as usize).collect();
+        let b = build_c(plans[pi].clone(), templates.clone());
+        let x = run_one(&b, &choices, 400, true).unwrap_or_else(|f| fail_exit(f));
+        let y = run_one(&b, &choices, 400, true).unwrap_or_else(|f| fail_exit(f));
+        if x.fingerprint() != y.fingerprint() {
+            fail_exit(Fail::Divergence("replay is not deterministic".into()));
+        }
+        rep.eval(Some("replay"));
+        rep.sample(json!({"case": case, "trace": x.trace, "outcome": x.outcome}));
+        if let Some((sig, what)) = x.violation {
+            rep.violation(&sig, &format!("{} ; schedule: {}", what, x.trace.join(" > ")), case);
+        }
+        rep.finish(args);
+    }
+    let use_plans = c19t_plans(args.thorough());
+    let mine: Vec<(usize, &TPlan)> = plans.iter().enumerate().filter(|(_, p)| use_plans.iter().any(|q| q.base == p.base && q.threads == p.threads)).filter(|(i, _)| i % args.nshards == args.shard).collect();
+    let mut lock_points = 0u64;
+    for (pi, plan) in mine {
+        let b = build_c(plan.clone(), templates.clone());
+        let cfg = ExploreCfg { bound: 1000, stateful: false, horizon: 400, max_execs: 200_000, shard: 0, nshards: 1, deadline: None, env_order_free: false };
+        let mut found: Vec<(String, String, Vec<usize>)> = vec![];
+        {
+            let repref = &mut rep;
+            let lp = &mut lock_points;
+            let mut on_exec = |x: &Exec, _p: &[usize]| {
+                let choices = x.choices();
+                repref.eval(Some(&format!("{}:{:?}", pi, choices)));
+                repref.outcome(&format!("{}:{}", pi, x.outcome));
+                *lp += x.points.iter().filter(|p| p.alts[p.chosen].contains("Lock(")).count() as u64;
+                if repref.want_sample() {
+                    repref.sample(json!({"plan": pi, "base": STEPS[plan.base], "threads": format!("{:?}", plan.threads), "choices": choices, "outcome": x.outcome}));
+                }
+                if let Some((sig, what)) = &x.violation {
+                    found.push((sig.clone(), what.clone(), choices));
+                }
+            };
+            let stats = explore(&b, &cfg, &mut on_exec).unwrap_or_else(|f| fail_exit(f));
+            for h in &stats.states {
+                rep.state_hashes.insert(*h ^ (pi as u64).wrapping_mul(0x9E3779B97F4A7C15));
+            }
+            rep.count("transitions", stats.transitions);
+            rep.count("executions", stats.executions);
+            rep.count("plans", 1);
+            if stats.capped {
+                rep.exhaustive = false;
+                rep.notes.push(format!("plan {} {:?}: capped after {} executions", pi, plan, stats.executions));
+            }
+        }
+        found.sort_by_key(|f| (f.0.clone(), f.2.iter().filter(|c| **c != 0).count(), f.2.len()));
+        let mut seen = HashSet::new();
+        for (sig, what, choices) in found {
+            let case = json!({"plan": pi, "threads": format!("{:?}", plan.threads), "base": plan.base, "choices": choices});
+            if seen.insert(sig.clone()) {
+                let x = run_one(&b, &choices, 400, true).unwrap_or_else(|f| fail_exit(f));
+                match &x.violation {
+                    Some((s2, _)) if *s2 == sig => rep.violation(&sig, &format!("{} ; schedule: {}", what, x.trace.join(" > ")), case),
+                    other => fail_exit(Fail::Divergence(format!("violation {} did not reproduce on replay: {:?}", sig, other))),
+                }
+            } else {
+                rep.violation(&sig, &what, case);
+            }
+        }
+    }
+    rep.count("lock_acquisitions_scheduled", lock_points);
+    if lock_points == 0 && rep.evaluations > 0 {
+        // the service's locks are not the scheduled ones: the exploration would be vacuous
+        eprintln!("MACHINERY: no lock acquisition of the service was a scheduling point (import redirection failed?)");
+        std::process::exit(2);
+    }
+    rep.finish(args)
+}
+
 fn main() {
     silence_panics();
     let args = Args::parse();
+    if args.sub == "c19t" {
+        c19t(&args);
+    }
     let mut rep = Report::new("C19", "explicit-state BFS over the real certification service driven in-process through handle(): model state = the step the service accepts next for a client, identified black-box by probing; in every reachable state every event is tried: the canonical request of each of the 13 methods, every single-leaf mutation of its canonical parameters (changed, removed, retyped to every other JSON type class, data keys renamed/removed), every other call-mode flag combination, empty/unknown/ill-typed client ids, missing parameters; invariant: a deviating event never yields that step's success reply (for the oneway step Test11, whose success is silence, only non-oneway deviations are observable), the canonical event at the expected step yields it; differential: histories reaching a state through deviations must classify every event like the canonical prefix; product BFS over 2 (thorough 3) clients with step-level interleaving: every canonical step of every client succeeds in every product state and out-of-order calls of one client never disturb another; non-trivial = distinct (state, event) pairs");
     let templates = match canonical_templates() {
         Ok(t) => t,
